@@ -191,7 +191,11 @@ type value struct {
 	native []byte // canonical native encoding
 	writes []int  // end offset of every Write the real encoder made
 	label  string
+	cross  bool // the shape asks for assets on two ledgers
 }
+
+// The link engines' processes know two ledgers (cross-ledger allocations).
+func init() { gen.RegisterSecondLedger() }
 
 // buildValue regenerates the value a step describes. Total: any step yields a
 // value.
@@ -202,6 +206,9 @@ func buildValue(st *kernel.Step) (*value, error) {
 	r := kernel.NewRand(kernel.Derive(uint64(st.Int("seed")), "val"))
 	v, meta := k.gen(r, t, gen.ShapeFromStep(st))
 	val := &value{kind: k, typ: t, v: v, meta: meta, label: k.name}
+	if sh := gen.ShapeFromStep(st); sh.TwoLedgers() && sh.Assets >= 2 {
+		val.cross = true
+	}
 	if k.env {
 		val.label = "Env/" + t.String()
 	}
